@@ -107,8 +107,8 @@ Fixpoint run_pops (p : proc) (fuel : nat) (ops : list pop) (st : popen) (reaped 
     | None, None => [JC "Hang" []]
     end
   | PoWait tm :: r =>
-    let W := if reaped then (fun _ _ _ => WEchild) else k_waitpid p in
-    let E := if reaped then (fun _ => reused) else k_exists p in
+    let W := if reaped then k_waitpid_reaped else k_waitpid p in
+    let E := if reaped then k_exists_reaped reused else k_exists p in
     let '(res, st', t', sl) := popen_wait W E (p_pid p) st tm fuel t in
     JL [jres res; jq t'; jqs sl; jnat (kcalls (ps_obj st'))]
     :: run_pops p fuel r st' (reaped || match res with RInt _ => true | _ => false end) reused t'
@@ -116,3 +116,20 @@ Fixpoint run_pops (p : proc) (fuel : nat) (ops : list pop) (st : popen) (reaped 
 
 Definition run_popen (p : proc) (start : Q) (ops : list pop) (fuel : nat) : jv :=
   JL (run_pops p fuel ops new_popen false false start).
+
+(* ---- what the virtual kernel answers in one scripted situation (compared with the RUNNING kernel by the
+   live cases): waitpid(pid, WNOHANG), a blocking waitpid(pid, 0), kill(pid, 0) ---- *)
+Definition jwp (w : wp) : jv :=
+  match w with
+  | WEintr _ => JC "Eintr" []
+  | WEchild => JC "Echild" []
+  | WRunning => JC "Running" []
+  | WStatus _ st => JC "Status" [JZ st]
+  | WForever => JC "Blocks" []
+  end.
+
+Definition run_kprobe (p : proc) (t : Q) (reaped : bool) : jv :=
+  JL [ jwp (if reaped then k_waitpid_reaped 0%nat t true else k_waitpid p 0 t true);
+       jwp (if reaped then k_waitpid_reaped 0%nat t false else k_waitpid p 0 t false);
+       jbool (if reaped then k_exists_reaped false t else k_exists p t);
+       JZ (k_status (p_status p)); jres (decode_status (k_status (p_status p))) ].
